@@ -21,7 +21,7 @@ def lattice_check(ctx, gen, judge, harness, libs, rule, nontrivial, assumptions,
         cases = [case]
         core.write_ndjson(ctx.path("cases.ndjson"), cases)
     else:
-        cases = ctx.gen(gen, env=env, heap="8g")
+        cases = ctx.gen(gen, env=env, heap="8g", timeout=(5400 if ctx.thorough else 1500))
     exe = ctx.compile(harness, libs=libs)
     obs = ctx.path("obs.ndjson")
     r = ctx.run(["timeout", "1200", exe, ctx.path("cases.ndjson"), obs] + list(harness_args), timeout=1300)
@@ -33,7 +33,7 @@ def lattice_check(ctx, gen, judge, harness, libs, rule, nontrivial, assumptions,
                       "the real code crashed / aborted (exit %d) on case %s: %s" % (r.returncode, json.dumps(culprit), (r.stdout or "")[-300:]),
                       {"case": culprit})
         return finish(ctx, level, {"evaluations": done, "distinct_nontrivial": 0, "rule": rule, "samples": cases[:2]}, assumptions)
-    bad, jr = ctx.judge(judge, obs, env=env, heap=judge_heap)
+    bad, jr = ctx.judge(judge, obs, env=env, heap=judge_heap, timeout=(5400 if ctx.thorough else 1500))
     nobs = sum(1 for _ in open(obs))
     if ctx.replay_only is None and nobs != len(cases):
         raise Broken("harness observed %d cases, GEN produced %d" % (nobs, len(cases)))
